@@ -43,6 +43,10 @@ pub enum Error {
     output_value: Amount,
     dust_value: Amount,
   },
+  ExcessPostage {
+    output_value: Amount,
+    postage: Amount,
+  },
   InvalidAddress(bitcoin::address::FromScriptError),
   NotEnoughCardinalUtxos,
   NotInWallet(SatPoint),
@@ -71,6 +75,13 @@ impl Display for Error {
       } => write!(
         f,
         "output value is below dust value: {output_value} < {dust_value}"
+      ),
+      Error::ExcessPostage {
+        output_value,
+        postage,
+      } => write!(
+        f,
+        "cannot send exactly {postage} of postage: the output would carry {output_value} and the excess is too small to be returned as change"
       ),
       Error::InvalidAddress(source) => write!(f, "invalid address: {source}",),
       Error::NotInWallet(outgoing_satpoint) => {
@@ -579,10 +590,12 @@ impl TransactionBuilder {
             );
           }
           Target::ExactPostage(postage) => {
-            assert!(
-              output.value <= postage + slop,
-              "invariant: excess postage is stripped"
-            );
+            if output.value > postage + slop {
+              return Err(Error::ExcessPostage {
+                output_value: output.value,
+                postage,
+              });
+            }
           }
           Target::Value(value) => {
             assert!(
